@@ -3,6 +3,33 @@
 #include <math.h>
 #include <stdlib.h>
 
+#ifdef JTIOSUE_QUBOVERT_VERIF
+/* Verification hooks (only compiled with -DJTIOSUE_QUBOVERT_VERIF=1; the
+   production build from setup.py never defines it). Counters are read and
+   reset through _canneal.c_verif_counters(). */
+#include <stdio.h>
+long qvverif_checks = 0;      /* invariants evaluated */
+long qvverif_mismatches = 0;  /* dE used != E(after) - E(before), stale cache */
+long qvverif_bounds = 0;      /* index outside [0, len_state) */
+static int qvverif_len_state = 0;
+static double qvverif_scale = 1.;
+static void qvverif_report(const char *what, long a, double x, double y) {
+    if(qvverif_mismatches + qvverif_bounds <= 20) {
+        fprintf(stderr, "QVVERIF quso %s at %ld: %.17g vs %.17g\n",
+                what, a, x, y);
+    }
+}
+#define QVVERIF_INDEX(i, what) do { qvverif_checks++; \
+    if((i) < 0 || (i) >= qvverif_len_state) { qvverif_bounds++; \
+        qvverif_report(what, (long)(i), 0., (double)qvverif_len_state); \
+    } } while(0)
+double quso_value(
+    int len_state, int *state, double *h,
+    int *num_neighbors, int *neighbors, double *J,
+    long *index
+);
+#endif
+
 
 void compute_flip_dE(
     double *flip_spin_dE,
@@ -41,6 +68,9 @@ void compute_flip_dE(
         subgraph_energy = h[i];
         for(j=0; j<num_neighbors[i]; j++) {
             neighbor = neighbors[index[i] + j];
+#ifdef JTIOSUE_QUBOVERT_VERIF
+            QVVERIF_INDEX(neighbor, "neighbor index (compute_flip_dE)");
+#endif
             subgraph_energy += J[index[i] + j] * state[neighbor];
         }
 
@@ -91,6 +121,9 @@ void recompute_flip_dE(
     // go through each of the neighbors of spin `spin`.
     for(j=0; j<num_neighbors[spin]; j++) {
         n = neighbors[index[spin] + j];
+#ifdef JTIOSUE_QUBOVERT_VERIF
+        QVVERIF_INDEX(n, "neighbor index (recompute_flip_dE)");
+#endif
         // previously, the delta_energy for spin `n` was
         // -2*state[n] * (
         //     sum(state[x] * (couping between x and n)
@@ -182,6 +215,24 @@ void single_anneal_quso(
         for(j=0; j<len_state; j++) {
             i = in_order ? j : rand_int(rng, len_state);
             dE = flip_spin_dE[i];
+#ifdef JTIOSUE_QUBOVERT_VERIF
+            QVVERIF_INDEX(i, "visited spin");
+            if(len_state <= 128 || (qvverif_checks % 37) == 0) {
+                /* the dE used for the acceptance test versus the full energy */
+                double qv_before = quso_value(
+                    len_state, state, h, num_neighbors, neighbors, J, index);
+                state[i] *= -1;
+                double qv_after = quso_value(
+                    len_state, state, h, num_neighbors, neighbors, J, index);
+                state[i] *= -1;
+                qvverif_checks++;
+                if(fabs((qv_after - qv_before) - dE) > 1e-7 * qvverif_scale) {
+                    qvverif_mismatches++;
+                    qvverif_report("dE used vs E(after)-E(before)", (long)i,
+                                   dE, qv_after - qv_before);
+                }
+            }
+#endif
             if(dE <= 0 || (T > 0 && rand_double(rng) < exp(-dE / T))) {
                 recompute_flip_dE(
                     i, flip_spin_dE, state,
@@ -191,6 +242,25 @@ void single_anneal_quso(
                 state[i] *= -1;
             }
         }
+#ifdef JTIOSUE_QUBOVERT_VERIF
+        {   /* end of a temperature step: the incrementally maintained cache
+               versus flip energies recomputed from scratch */
+            double *qv_fresh = (double*)malloc(len_state * sizeof(double));
+            int qv_k;
+            compute_flip_dE(qv_fresh, len_state, state, h,
+                            num_neighbors, neighbors, J, index);
+            for(qv_k=0; qv_k<len_state; qv_k++) {
+                qvverif_checks++;
+                if(fabs(qv_fresh[qv_k] - flip_spin_dE[qv_k])
+                        > 1e-7 * qvverif_scale) {
+                    qvverif_mismatches++;
+                    qvverif_report("stale flip_spin_dE cache", (long)qv_k,
+                                   flip_spin_dE[qv_k], qv_fresh[qv_k]);
+                }
+            }
+            free(qv_fresh);
+        }
+#endif
     }
     free(flip_spin_dE);
 }
@@ -230,6 +300,13 @@ double quso_value(
         subgraph_energy = h[i];
         for(j=0; j<num_neighbors[i]; j++) {
             neighbor = neighbors[index[i] + j];
+#ifdef JTIOSUE_QUBOVERT_VERIF
+            if(neighbor < 0 || neighbor >= qvverif_len_state) {
+                qvverif_bounds++;
+                qvverif_report("neighbor index (quso_value)", (long)neighbor,
+                               0., (double)qvverif_len_state);
+            }
+#endif
             if(neighbor >= i) {
                 subgraph_energy += J[index[i] + j] * state[neighbor];
             }
@@ -311,6 +388,21 @@ void anneal_quso(  // updates states and values in place
     int i, j;
 
     rng_t rng = rand_init(seed);
+
+#ifdef JTIOSUE_QUBOVERT_VERIF
+    {
+        long qv_k, qv_total = 0;
+        qvverif_len_state = len_state;
+        qvverif_scale = 1.;
+        for(qv_k=0; qv_k<len_state; qv_k++) {
+            qvverif_scale += fabs(h[qv_k]);
+            qv_total += num_neighbors[qv_k];
+        }
+        for(qv_k=0; qv_k<qv_total; qv_k++) {
+            qvverif_scale += fabs(J[qv_k]);
+        }
+    }
+#endif
 
     // index[i] points to where the information for spin i starts
     // in the J and neighbor arrays.
